@@ -6,7 +6,7 @@
 From Coq Require Import List NArith ZArith Bool Arith.
 Import ListNotations.
 From V Require Import Base.Prelude Base.TplRes Gen.Tokens Model.C31 Model.Tpl Model.TplCl Model.TplProd
-  Proofs.Tpl Proofs.TplTerm Proofs.TplSafe Gen.TplFirst Proofs.TplFirst.
+  Proofs.Tpl Proofs.TplTerm Proofs.TplSafe Gen.TplFirst Proofs.TplFirst Model.TplRp Proofs.TplRpTerm.
 Local Open Scope nat_scope.
 
 (* termination with an explicit fuel bound, for every productive grammar, every input, every
@@ -19,6 +19,25 @@ Proof. exact match_terminates. Qed.
 Theorem C28_result_stable : forall rk nl env toks doc f, productive rk nl env = true ->
   fuel_bound rk env toks <= f -> match_doc env toks f doc = match_doc env toks (fuel_bound rk env toks) doc.
 Proof. exact match_result_stable. Qed.
+
+(* WITH result rewriters (RetProcs).  Model/TplRp.v [runp] models Var.RetProc and what every combinator does
+   with a runtime (Dyn) error: gSequence / gRepeat0 / gRepeat1 keep going, +R returns at once for an error of
+   its first repetition, ?R swallows it, gAdjoin aborts on the left operand's and keeps the right operand's,
+   Choices treats it as a failed option and reports the error with the largest n, Var passes it up.
+   Termination holds for every productive grammar and every assignment of rewriters that raise an error only
+   for a token result (identity, wrap, reject-literal with a Dyn or a plain error), same fuel bound *)
+Theorem C28_match_terminates_with_retprocs : forall rk nl env rps toks doc, productive rk nl env = true ->
+  envp_safe (attach env rps) = true ->
+  is_fuel (match_doc_rp (attach env rps) toks (fuel_bound rk env toks) doc) = false.
+Proof. exact match_terminates_rp. Qed.
+
+(* the restriction on the rewriters is necessary — known finding: a rewriter that raises a Dyn error for a rule
+   that matched NO token makes *R spin:  doc = *(a ++ INT)  a = ?IDENT  RetProc(a) = panic("boom"), input "1":
+   productive, yet out of any fuel *)
+Theorem C28_retproc_dyn_on_empty_match_refuted :
+  productive [1; 0] [true; true] (bodies env_boom) = true /\
+  forall f, match_doc_rp env_boom toks_one_int f 0 = OutOfFuel.
+Proof. split; [vm_compute; reflexivity|exact boom_diverges]. Qed.
 
 (* matching never panics either: every grammar cl.NewEx returns has one stop flag per choice option
    (CheckConflicts), and on scanner tokens no index leaves the input — for ANY compiled grammar *)
@@ -83,6 +102,14 @@ Example C28_example_hidden_left_rec_rejected :
                                         EIdent item; ELit false [34;33;34]%N]])] = Ok None.
 Proof. vm_compute. reflexivity. Qed.
 
+(* doc = +num  num = INT  with a rewriter on num rejecting 0 by a Dyn error, input 1 2 0 3: the repetition keeps
+   going after the Dyn error of its third element and returns all four with that error *)
+Example C28_example_retproc_dyn :
+  match_doc_rp [Some (MRep1 (MVar 1), None); Some (MTok 5, Some (RpRejDyn [48%N]))]
+               [mkT 5 [49%N] 1; mkT 5 [50%N] 3; mkT 5 [48%N] 5; mkT 5 [51%N] 7]%Z 40 0
+  = Ok (4, RList [RTok 0; RTok 1; RTok 2; RTok 3], EDyn).
+Proof. vm_compute. reflexivity. Qed.
+
 (* non-vacuity: the README calculator grammar with a recursive operand is productive
      expr = operand % ("*"|"/") % ("+"|"-")        operand = INT | "-" operand | "(" expr ")"
    certificate: rank expr = 1 > rank operand = 0, neither may be empty *)
@@ -99,6 +126,8 @@ Proof. eexists. vm_compute. reflexivity. Qed.
 
 Print Assumptions C28_match_terminates.
 Print Assumptions C28_result_stable.
+Print Assumptions C28_match_terminates_with_retprocs.
+Print Assumptions C28_retproc_dyn_on_empty_match_refuted.
 Print Assumptions C28_first_rules_match_source.
 Print Assumptions C28_choice_nullable_at_any_index.
 Print Assumptions C28_sequence_first_prefix.
